@@ -8,5 +8,5 @@ REPO=${VERIF_REPO:-/repo}
 extract/bin/extract -repo "$REPO" -out lean/Ntrip/Generated
 (cd lean && lake build)
 cp "$REPO/go.sum" harness/go.sum
-(cd harness && go build -o bin/corr ./cmd/corr)
+(cd harness && go build -o bin/corr ./cmd/corr && go build -o bin/procs ./cmd/procs)
 echo "setup done"
